@@ -396,8 +396,9 @@ def check_C10(rep, tier, seed):
     report_k3(rep, "C10", r3, direct, [], [])
 
 
-def k4_part(rep, tier, seed, kinds, terms=None):
-    """K4 mismatches of the given kinds (restricted to the given terminals for 'result')"""
+def k4_part(rep, tier, seed, kinds, terms=None, panics=False):
+    """K4 mismatches of the given kinds (restricted to the given terminals for 'result'); the cases
+    with an injected panic belong to C14 only"""
     import k4
     res = k4.run_k4(tier, seed)
     rep.correspondences.append("K4 deterministic scheduler: real threads serialised under adversarial pick lists vs the model's "
@@ -415,6 +416,8 @@ def k4_part(rep, tier, seed, kinds, terms=None):
     direct, indirect = [], []
     for kind in kinds:
         for m in res["mismatch"].get(kind, []):
+            if str(m.get("style", "")).startswith("panic_") != panics:
+                continue
             if kind in ("result", "run"):
                 if terms is None or m.get("term") in terms:
                     direct.append((kind, m))
@@ -528,6 +531,14 @@ def check_C14(rep, tier, seed):
     mm = [m for m in res["mismatch"] if "panic=" in m["case"]]
     if not res["c14"] and mm:
         corr_failure(rep, "K6(panic outcome)", mm, [], str)
+    # under chosen schedules: the panicking position is processed while another worker has published
+    # (or is about to publish) a match / keeps producing results -- the call must panic
+    _, d4, i4 = k4_part(rep, tier, seed, ["result", "run", "calls", "seen"], None, panics=True)
+    for kind, m in d4[:3]:
+        rep.violation("under a chosen schedule (%s) a chain closure panicked on a processed element but the call did not panic (or the model says otherwise)" % m.get("style"),
+                      {"failing_input_found": True, "correspondence": "K4", "input": m})
+    if i4 and not d4:
+        corr_failure(rep, "K4(panic: %s)" % ",".join(sorted(set(k for k, _ in i4))), [m for _, m in i4], [], str)
 
 
 CHECKS = {
